@@ -19,8 +19,15 @@ def run(ctx, out):
     recs_cl = [G.gen_record(rng, classes[k % len(classes)]) for k in range(n_cl)]
     # every 4th record with a 2-3x finer water level series, outages and mostly an island of readings between two
     # outages (stored data-interval numbers with a hole); own stream, the records are otherwise unchanged
-    recs_cl = G.fine_share(recs_cl, C.rng_for(seed, PROP, 'fine'))
-    K.check_cl(recs_cl, out, KEEP, PROP, 'cl')
+    # (every second refined record: outages opening / closing at readings off the rainfall grid, with heavy rain and a
+    # rise running into and out of them - stream of its own; recorded intervals are judged against the gaps of the
+    # water-level record as written to the input file, K.oracle_source_gaps)
+    recs_cl = G.fine_share(recs_cl, C.rng_for(seed, PROP, 'fine'), run_in_rng=C.rng_for(seed, PROP, 'run-in'))
+    # rises whose foot increments equal one of the roundings of threshold x step (see c01.py); stream of its own
+    rng_u = C.rng_for(seed, PROP, 'ulp')
+    recs_foot = [G.gen_foot_record(rng_u) for _ in range(20 if tier == 'quick' else 200)]
+    K.count_foot(recs_foot, out)
+    K.check_cl(recs_cl + recs_foot, out, KEEP, PROP, 'cl')
     out.rule = ('MS: records with threshold-equal and one-ulp-off intensities / increments, runs of length one, '
                 'runs touching either end, through match_storms; CL: the same through the CLI with gaps, comparing '
                 'tables storm, zeta_interval, zeta_interval_storm and the view storm_total_rain_depth. '
